@@ -134,6 +134,10 @@ def run(tier: str, seed: int, rep: Report, model: Model) -> dict:
                     # exactly one fault: there is exactly one factual first-come report
                     if mo.get("v") == "reject" and (mo.get("kind") != im.get("kind") or mo.get("name") != im.get("name")):
                         rep.violation({"what": "wrong error kind or tensor name for the single fault", **rec})
+                    elif mo.get("v") == "reject" and factual(case, mo) is None and ref["v"] == "reject":
+                        # one fault, one first-come report: the model's (proved factual, Reports.v) names the same tensor and kind
+                        # but other numbers - the implementation's index / expected / actual is not the fault's
+                        rep.violation({"what": "the numbers of the report (index / expected / actual) are not those of the single fault", **rec})
                     else:
                         rep.disagreement({"what": "model and implementation report differently", **rec})
                 elif not ctxrun.same_verdict(im, mo):
